@@ -2,5 +2,6 @@ pub mod c04;
 pub mod c05;
 pub mod crash;
 pub mod dirgen;
+pub mod faults;
 pub mod fsx;
 pub mod pure;
